@@ -280,6 +280,24 @@ def end_is_final(chk, P, prefix=""):
     adt = P.f.adts.get("stmt::StmtIterator")
     ty = dict((f["name"], f["ty"]) for f in adt["variants"][0]["fields"]).get("stmt_iter", "") if adt else ""
     ok &= bool(chk.require(re.fullmatch(r"std::slice::Iter<'a, stmt::Stmt>", ty) is not None, "TYPE", prefix + "TYPE:StmtIterator.stmt_iter-is-a-slice-iterator", "slice::Iter is fused: None stays None", "StmtIterator.stmt_iter has type %s" % ty))
+    # ... and an exhausted block iterator is never rewound or replaced: the field is set where a StmtIterator is built
+    # and otherwise only lent to Iterator::next (a field assignment is not an `effect` of an edge, so the edge rule
+    # above cannot see `self.stmt_iter = self.stmts.iter()` on the Ok(None) path)
+    bad, lent = [], 0
+    for wb, wbb, wi, kind in P.field_writers("stmt::StmtIterator", "stmt_iter"):
+        t = wb.blocks[wbb]["term"]
+        fn = t.get("func") if t["t"] == "call" else None
+        if kind == "borrow_mut" and isinstance(fn, dict) and fn.get("fn") == "std::iter::Iterator::next" and (fn.get("self_ty") or "").startswith("std::slice::Iter<"):
+            st = wb.blocks[wbb]["stmts"][wi]
+            a0 = t["args"][0] if t["args"] else None
+            if isinstance(a0, dict) and a0.get("pl", a0).get("l") == st["lhs"]["l"] and not st["lhs"]["p"]:
+                lent += 1
+                continue
+        if kind in ("mem_whole", "call_dest_whole", "assign_whole"):
+            continue   # a whole StmtIterator replaced: that is a construction (Box::new(StmtIterator{..}) moved into the state), read by the body rules
+        bad.append((wb.name.split("::")[-1], kind))
+    ok &= bool(chk.require(not bad and lent >= 1, "WHO", prefix + "WHO:stmt_iter-never-rewound", "StmtIterator.stmt_iter is lent to slice::Iter::next at %d site(s) and written nowhere else (set only where a StmtIterator is built)" % lent,
+                           "StmtIterator.stmt_iter is written at %s (lent to next() at %d site(s)): an exhausted block can be rewound, so Ok(None) is not final" % (sorted(set(bad)), lent)))
     return ok
 
 
